@@ -104,6 +104,7 @@ type ContractSet struct {
 	Standins  []Standin
 	Locks     []LockDiscipline
 	Unopaque  []Unopaque
+	KeyTypes  []string // struct types used as map keys: values are terms of an uninterpreted sort built by an injective constructor
 	Files     []string
 	Errors    []string
 }
@@ -327,6 +328,16 @@ func (cs *ContractSet) loadContractText(path string, pkgPath string, text string
 			cs.ObjInvs[oi.Type] = append(cs.ObjInvs[oi.Type], oi)
 			cur = nil
 			lastText = &oi.Text
+			continue
+		case "keytype":
+			// keytype <qualified struct type>
+			if len(fields) != 2 {
+				errf(i, "keytype type")
+				continue
+			}
+			cs.KeyTypes = append(cs.KeyTypes, fields[1])
+			cur = nil
+			lastText = nil
 			continue
 		case "unopaque":
 			// unopaque <qualified type> props Cxx[,Cyy]
